@@ -694,6 +694,7 @@ class Exec(Engine):
         if u is not None: return self.apply_contract(st, u, args, kwargs, node)
         m = self.reg.find_model(name)
         if m is not None:
+            args = [self.unopt_if_known(st, a) for a in args]
             r = m(self, st, args, kwargs, node)
             if r is None: raise Unsupported('model %s declined at %s' % (name, self.loc(node)))
             return r
@@ -703,6 +704,16 @@ class Exec(Engine):
             st.trace.append(('call', name))
             return [(st, self.fresh(st, o, name.split('.')[-1]) if o is not None else mk_none())]
         raise Unsupported('call to %s at %s (no contract, model or opaque declaration)' % (name, self.loc(node)))
+
+    def unopt_if_known(self, st, v):
+        """Optional[T] value that the path condition proves to be not None -> T value."""
+        if not isinstance(v.t, OptT) or v.ref is not None: return v
+        s = z3.Solver(); s.set('timeout', 1000)
+        for p in st.pc:
+            if not self.has_quant(p): s.add(p)
+        s.add(opt_is_none(v.t, v.z))
+        if s.check() == z3.unsat: return self.load_val(st, v.t.base, opt_val(v.t, v.z))
+        return v
 
     def call_method(self, st, bm, args, kwargs, node):
         qual = bm.cls + '.' + bm.name
